@@ -743,7 +743,7 @@ package vanguard
 //@   modifies
 
 //@ func asConnectError
-//@   ensures[C04] result != nil
+//@   ensures[C04] result != nil && result.Code == code(cerr)
 //@   modifies $connerr|
 
 //@ func (*operation).reportError
@@ -905,3 +905,16 @@ package vanguard
 //@ func parseMultiHeader
 //@   loop 1 invariant count >= 0
 //@   modifies
+
+// ------------------------------------------------------------------------------------------------
+// C04: Connect error details use unpadded standard base64 in both directions (Connect protocol,
+// "Error Details"); the code and message are copied from the error.
+//@ func connectErrorToWireError
+//@   requires cerr != nil
+//@   atcall[C04] (*encoding/base64.Encoding).EncodeToString: arg(0) == base64.RawStdEncoding
+//@   ensures[C04] result != nil && result.Code == code(cerr)
+
+//@ func (*connectWireError).toConnectError
+//@   requires e != nil
+//@   atcall[C04] (*encoding/base64.Encoding).DecodeString: arg(0) == base64.RawStdEncoding
+//@   ensures[C04] result != nil && code(result) == e.Code
